@@ -11,6 +11,7 @@ import (
 	"strings"
 	"syscall"
 
+	klogv1 "k8s.io/klog"
 	"k8s.io/klog/v2"
 )
 
@@ -49,6 +50,14 @@ func main() {
 	_ = fs.Set("alsologtostderr", "false")
 	_ = fs.Set("stderrthreshold", "FATAL")
 	klog.SetOutput(ioutil.Discard)
+	// client-go / apimachinery still log through klog v1, which writes a file per severity and process into the
+	// temp directory unless told otherwise
+	fs1 := flag.NewFlagSet("klogv1", flag.ContinueOnError)
+	klogv1.InitFlags(fs1)
+	_ = fs1.Set("logtostderr", "false")
+	_ = fs1.Set("alsologtostderr", "false")
+	_ = fs1.Set("stderrthreshold", "FATAL")
+	klogv1.SetOutput(ioutil.Discard)
 
 	var s suite
 	sc := bufio.NewScanner(os.Stdin)
